@@ -179,6 +179,11 @@ def era_chains():
         for rs in itertools.product(kinds, repeat=3):
             for ys in (('2008', '2009'), ('2007', '2010')):
                 add('chain3', list(zip(pat, rs)), list(ys))
+    # chain2t: the same pairings with a month/day/time UNTIL (extended scope only admits them), incl. UNTIL on a rule's own instant
+    for a, b in (('9:30', '10:30'), ('-4:30', '-3:30'), ('10:00', '10:00')):
+        for r0, r1 in itertools.product(kinds, repeat=2):
+            for tail in UNTIL_TAILS[1:] + [('Apr', 'Sun>=1', '2:00s'), ('Apr', 'Sun>=1', '3:00'), ('Mar', 'Sun>=8', '2:00'), ('Nov', 'Sun>=1', '2:00'), ('Nov', 'Sun>=1', '1:00')]:
+                add('chain2t', [(a, r0), (b, r1)], ['2012 ' + ' '.join(tail)])
     return '\n'.join(rl), out
 
 def year_boundary():
